@@ -374,6 +374,12 @@ func init() {
 					}
 				}
 			}
+			// "at most once per subscription" through the batch API: one MessageBatch reused across PublishBatch calls
+			// while other goroutines add to it and the event loop is busy or free (the explorer of c19batch.go, judged
+			// here on deliveries per ID only)
+			if _, ok := r.nextCase(); ok {
+				vfExplore(r, vfBatchCfg(r.thorough, "c02batch"))
+			}
 			vfRunGWScenarios(r, vfC02Scenarios(r.thorough), vfC02Mk)
 		},
 		replay: func(r *vfRun, raw json.RawMessage) {
@@ -389,6 +395,8 @@ func init() {
 			switch {
 			case c.Variant == "sched":
 				vfC02SchedReplay(r, raw)
+			case c.Scenario.Part == "batch":
+				vfReplayCase(r, vfBatchCfg(true, "c02batch"), raw)
 			case c.Scenario.Part == "cache":
 				vfReplayCase(r, &vfExploreCfg{Name: "cache", Bubble: true, New: func(x *vfExec) vfInstance {
 					return vfTCNew(x, timecache.Strategy(c.Scenario.Strategy), c.Scenario.Phase)
